@@ -167,6 +167,12 @@ def gen_cases(rng, tier):
         cs.append({"mode": "optimize", "poly": lot, "spacing": sp, "rot_step": 2.0, "rot_start": -6.0, "rot_stop": 6.5, "timeout": 60, "nogo": zs})
         for deg in (-6.0, -4.0, -2.0, 0.0, 2.0, 4.0, 6.0):
             cs.append({"mode": "config", "poly": lot, "spacing": sp, "rotate": deg, "rot_start": deg, "rot_step": 1.0, "rot_stop": deg + 0.5, "timeout": 60, "nogo": zs})
+    # ... and one fixed lot of that family (three buildings in a line), independent of the seed
+    lot3 = [[10.0, 10.0], [210.0, 11.0], [212.0, 68.0], [11.0, 70.0]]
+    zs3 = [[[cx - 11.0, 31.5], [cx + 11.0, 31.0], [cx + 11.5, 48.0], [cx - 11.0, 48.5]] for cx in (55.0, 110.0, 165.0)]
+    cs.append({"mode": "optimize", "poly": lot3, "spacing": 9.0, "rot_step": 2.0, "rot_start": -4.0, "rot_stop": 4.5, "timeout": 60, "nogo": zs3})
+    for deg in (-2.0, 0.0, 2.0):
+        cs.append({"mode": "config", "poly": lot3, "spacing": 9.0, "rotate": deg, "rot_start": deg, "rot_step": 1.0, "rot_stop": deg + 0.5, "timeout": 60, "nogo": zs3})
     # corners on the axes / at the origin, edges on the axes, the full [-90, 90] window
     cs.append({"mode": "optimize", "poly": [[0, 0], [80, 0], [40, 60]], "spacing": 10.0, "rot_step": 5.0, "rot_start": -85.0, "rot_stop": 85.0, "timeout": 60})
     cs.append({"mode": "optimize", "poly": [[0, 10], [60, 0], [90, 50], [20, 70]], "spacing": 12.0, "rot_step": 5.0, "rot_start": -60.0, "rot_stop": 60.0, "timeout": 60})
